@@ -44,6 +44,11 @@ CHECKS = [
   'level': 'All float64 pairs: crossing predicates = strict direction-compatible sign change (or exact zero at the step end). Bisection: bracket invariant, halving, exit conditions, hit inside the step on the interpolant. '
            'Drivers (fixed/RK45/DOP853 x generic/Hamiltonian, symplectic): a hit is reported at the first accepted step satisfying the rule and refined on that step, filtered directions never trigger, otherwise the last state at t_max.',
   'note': 'bisection unwound to 3 (4 thorough) of 128 iterations; drivers to 2 (3) kernel calls / 2 grid steps; "first" is at step granularity; interpolation order is C02-(3)'},
+ {'id': 'C17',
+  'technique': 'symbolic execution of the Hamiltonian right-hand side and evaluators on a polynomial with symbolic coefficients (z3 residual queries); syntactic/solver equivalence of generic vs Hamiltonian kernels and product-program exploration of the driver twins',
+  'level': 'For all coefficient values and states: _hamiltonian_rhs, hamsys.rhs and the dH_dQ/dH_dP evaluators equal (dH/dP, -dH/dQ); each *_ham step kernel equals its generic twin for an arbitrary field; '
+           'generic and Hamiltonian drivers (fixed, RK45, DOP853, with and without events) produce identical traces and results on every explored path; integrate() dispatches on the runtime protocol; one compiled-build evaluation of hamsys.rhs.',
+  'note': 'H of degree <= 3 with 13 symbolic coefficients; driver product runs unwound to 2 kernel calls (DOP853: 1; 3 thorough) in state dimension 1 with shared uninterpreted kernels/helpers; zero-skip guards explored on the generic side'},
 ]
 _BUILT = {c['id'] for c in CHECKS}
 NOT_APPLICABLE = [
